@@ -214,6 +214,8 @@ fn parse_number_internal(input: &str, default_radix: u32) -> Result<SimpleNumber
         Err(_) => {
             if radix == 10 {
                 match f64::from_str(&stripped) {
+                    // `nan`, `inf`, `infinity` and overflowing exponents are accepted by from_str but spell no number
+                    Ok(v) if !v.is_finite() => Err(DataError::new("not a finite number", DataErrorType::FailedToParseFloat(input.to_string()))),
                     Ok(v) => Ok(v.into()),
                     Err(e) => Err(DataError::new(e.to_string().as_str(), DataErrorType::FailedToParseFloat(input.to_string()))),
                 }
